@@ -194,6 +194,7 @@ class Extractor : public ASTConsumer {
     }
 
     // --------------------------------------------------------- expression trees
+    unsigned InitCap = 64; // initialiser-list elements kept (raised for the application's option table)
     const ParmVarDecl *curParams = nullptr;
     const FunctionDecl *curFn    = nullptr;
 
@@ -281,7 +282,7 @@ class Extractor : public ASTConsumer {
             J::Array a;
             unsigned n = 0;
             for (const Expr *x : I->inits()) {
-                if (n++ > 64) break;
+                if (n++ > InitCap) break;
                 a.push_back(expr(x));
             }
             return J::Array{"il", std::move(a)};
@@ -802,6 +803,8 @@ class Extractor : public ASTConsumer {
             errs() << "svtfacts: parse errors, no output\n";
             return;
         }
+        if (const FileEntry *FE0 = SM->getFileEntryForID(SM->getMainFileID()))
+            if (FE0->getName().contains("/App/")) InitCap = 800;
         for (const Decl *D : C.getTranslationUnitDecl()->decls()) handleDecl(D);
         StaticLocalFinder SLF(*this);
         SLF.TraverseDecl(C.getTranslationUnitDecl());
